@@ -34,206 +34,183 @@ def run(ctx) -> None:
     c03.r10_re_needs_text(ctx, "C04.R7")
 
 
-def _extract(ctx) -> dict[str, Any]:
+class _SC:
+    def __init__(self, n): self.n = n
+    def __repr__(self): return self.n
+
+
+WS, WM = _SC("?"), _SC("*")
+
+
+class PlaceholderPart:
+    def __init__(self, name="p"): self.name = name
+    def __repr__(self): return f"%{self.name}%"
+
+
+def modifier_outcome(ctx, cn: str, parts: list, payload: Optional[bytes] = None, class_state: Optional[dict] = None) -> tuple[str, Any]:
+    """modify() of the encoding modifier class `cn` interpreted (sa.tabulate, Proxy: inherited bodies, helper functions of the
+    module and class constants resolve from the source; base64 and str.encode of the standard library are the only library) on
+    a stand-in string with the given parts. → ('parts', list) | ('texts', list[str]) | ('refused', text) | ('error', name)."""
+    import base64 as _b64
+    from ..tabulate import Proxy, call_method, Raised
     prog = ctx.prog
-    c = prog.cls(OFF)
-    f = prog.func(OFF + ".modify")
-    m = f.module
-    out: dict[str, Any] = {}
-    for nm in ("start_offsets", "end_offsets"):
-        a = prog.lookup_class_attr(OFF, nm)
-        if a is None:
-            raise AnalysisError(f"anchor vanished: {OFF}.{nm}")
-        try:
-            out[nm] = tuple(const_eval(prog, m, a[1].value))  # type: ignore[attr-defined]
-        except ValueError:
-            raise AnalysisError(f"{OFF}.{nm} is not a constant tuple")
-    allcomps = [n for n in walk_no_nested(f.node) if isinstance(n, (ast.ListComp, ast.GeneratorExp))]
-    comps = [n for n in allcomps if isinstance(n.generators[0].iter, ast.Call) and call_name(n.generators[0].iter) == "range"]
-    if len(comps) != 1:
-        raise AnalysisError(f"{f.qual}: expected exactly one comprehension over range(...) building the variants")
-    comp = comps[0]
-    g = comp.generators[0]
-    out["filters"] = [unparse(i) for c in allcomps for gg in c.generators for i in gg.ifs]
-    out["shifts"] = list(range(*[const_eval(prog, m, a) for a in g.iter.args]))
-    out["var"] = unparse(g.target)
-    subs = [n for n in ast.walk(comp.elt) if isinstance(n, ast.Subscript) and isinstance(n.slice, ast.Slice)]
-    if len(subs) != 1:
-        raise AnalysisError(f"{f.qual}: slice of the encoded text not found")
-    sl = subs[0]
-    enc = sl.value
-    if not (isinstance(enc, ast.Call) and call_name(enc).split(".")[-1] == "b64encode"):
-        raise AnalysisError(f"{f.qual}: sliced expression is not b64encode(...)")
-    out["encoded_arg"] = enc.args[0]
-    out["lower"], out["upper"] = sl.slice.lower, sl.slice.upper
-    out["slice_node"] = sl
-    out["func"] = f
-    return out
+
+    class SigmaString:
+        def __init__(self, t=None):
+            self.s = [t] if isinstance(t, str) and t else []
+            self.t = t
+
+    class SigmaExpansion:
+        def __init__(self, values): self.values = list(values)
+
+    class SigmaValueError(Exception):
+        def __init__(self, *a, **k): super().__init__(*a)
+
+    class _Val(SigmaString):
+        def __init__(self):
+            self.s = list(parts)
+
+        def __bytes__(self):
+            if payload is not None:
+                return payload
+            return "".join(x if isinstance(x, str) else repr(x) for x in self.s).encode("utf-8")
+
+        def __str__(self): return "".join(x if isinstance(x, str) else repr(x) for x in self.s)
+        def __len__(self): return sum(len(x) if isinstance(x, str) else 1 for x in self.s)
+        def __iter__(self): return iter(self.s)
+        def contains_special(self): return any(isinstance(x, _SC) for x in self.s)
+        def contains_placeholder(self, *a, **k): return any(isinstance(x, PlaceholderPart) for x in self.s)
+        def to_plain(self, *a, **k): return str(self)
+
+    sc = type("SpecialChars", (), {"WILDCARD_SINGLE": WS, "WILDCARD_MULTI": WM})
+    env = {"SigmaString": SigmaString, "SigmaExpansion": SigmaExpansion, "SigmaValueError": SigmaValueError, "Placeholder": PlaceholderPart, "SpecialChars": sc,
+           "UnicodeError": UnicodeError, "UnicodeDecodeError": UnicodeDecodeError, "UnicodeEncodeError": UnicodeEncodeError,
+           "b64encode": _b64.b64encode, "base64": _b64, "cast": lambda t, v: v, "SigmaType": object}
+    if class_state is not None:
+        env["__class_state__"] = class_state
+    IK = {"behaviours": (SigmaValueError, UnicodeError), "max_steps": 6000}
+    cq = f"{M}.{cn}"
+    me = Proxy(prog, cq, env, {"source": None, "applied_modifiers": [], "detection_item": None}, interp_kwargs=IK)
+    try:
+        out = call_method(prog, cq, "modify", me, env, _Val(), interp_kwargs=IK)
+    except Raised as ex:
+        return ("refused", str(ex)) if "SigmaValueError" in str(ex) or "Sigma" in str(ex) else ("error", str(ex))
+    if isinstance(out, SigmaExpansion):
+        return ("texts", [getattr(v, "t", v) for v in out.values])
+    if isinstance(out, SigmaString):
+        return ("parts", list(out.s)) if out.t is None or out.s != [out.t] else ("texts", [out.t])
+    return ("error", repr(out))
 
 
-def _eval_index(expr: Optional[ast.AST], env: dict[str, Any]) -> Any:
-    """Evaluate a slice bound expression over a tiny environment."""
-    if expr is None:
-        return None
-    code = compile(ast.Expression(body=expr), "<slice>", "eval")
-    return eval(code, {"__builtins__": {"len": len, "min": min, "max": max, "abs": abs}}, env)  # noqa: S307 - extracted arithmetic only
+def _offset_variants(ctx, payload: bytes, chars: Optional[int] = None) -> Any:
+    """SigmaBase64OffsetModifier.modify interpreted (sa.tabulate, Proxy: class tables and helpers resolve from the source;
+    base64 of the standard library is the only library) on a stand-in value whose bytes are `payload` and whose length in
+    characters is `chars`. Returns the texts of the variants, or the refusal."""
+    import base64 as _b64
+    from ..tabulate import Proxy, call_method, Raised
+    prog = ctx.prog
+
+    class SigmaString:
+        def __init__(self, t=""): self.t = t
+
+    class SigmaExpansion:
+        def __init__(self, values): self.values = list(values)
+
+    class SigmaValueError(Exception):
+        def __init__(self, *a, **k): super().__init__(*a)
+
+    class _Val:
+        def __bytes__(self): return payload
+        def __len__(self): return len(payload) if chars is None else chars
+        def __str__(self): return payload.decode("utf-8", "replace")
+        def contains_special(self): return False
+        def contains_placeholder(self, *a, **k): return False
+        def to_plain(self, *a, **k): return str(self)
+
+    env = {"SigmaString": SigmaString, "SigmaExpansion": SigmaExpansion, "SigmaValueError": SigmaValueError, "UnicodeError": UnicodeError,
+           "b64encode": _b64.b64encode, "base64": _b64, "cast": lambda t, v: v, "SigmaType": object}
+    IK = {"behaviours": (SigmaValueError,), "max_steps": 4000}
+    me = Proxy(prog, OFF, env, {"source": None, "applied_modifiers": [], "detection_item": None}, interp_kwargs=IK)
+    try:
+        out = call_method(prog, OFF, "modify", me, env, _Val(), interp_kwargs=IK)
+    except Raised as ex:
+        return f"<raises {ex}>"
+    if not isinstance(out, SigmaExpansion) or not all(isinstance(v, SigmaString) and isinstance(v.t, str) for v in out.values):
+        return f"<{out!r}>"
+    return [v.t for v in out.values]
+
+
+def _reference_variants(payload: bytes) -> list[str]:
+    """What Base64 arithmetic requires: for a prefix of i bytes the first ceil(8i/6) characters depend on the prefix, and for
+    r = (length + i) mod 3 the last 0/3/2 characters are padding or depend on the bytes that follow."""
+    return [base64.b64encode(i * b" " + payload)[(8 * i + 5) // 6:(None, -3, -2)[(len(payload) + i) % 3]].decode() for i in range(3)]
 
 
 def r1_offset_tables(ctx) -> None:
     r, prog = ctx.r, ctx.prog
-    r.rule("C04.R1", "base64offset tables: shifts 0..2, padding of i bytes, start offset ceil(8i/6) → (0,2,3), end offset by (byte length + i) mod 3 → (None,-3,-2); thorough: the extracted slice arithmetic is checked against real Base64 text for every shift/length class and context")
-    x = _extract(ctx)
-    f: FuncInfo = x["func"]
+    r.rule("C04.R1", "base64offset: for every payload the variants are exactly Base64(i filler bytes + payload)[ceil(8i/6) : end by (byte length + i) mod 3 → (None,-3,-2)] for i = 0, 1, 2 — modify() interpreted on stand-in values for all payload lengths 1..6 over an alphabet with multi-byte and zero bytes; thorough: every variant is looked up in real Base64 text of its alignment class for every context")
+    f: FuncInfo = prog.func(OFF + ".modify")
     loc = f.loc
-    want_start = tuple((8 * i + 5) // 6 for i in range(3))
-    want_end = (None, -3, -2)
-    if x["shifts"] == [0, 1, 2]:
-        r.ok("C04.R1", f.qual, "shifts range(3)", loc)
-    else:
-        r.violation("C04.R1", f.qual, f"shifts {x['shifts']}", "the payload can sit at byte offsets ≡ 0, 1, 2 (mod 3) of the encoded data; exactly these three alignments are needed", loc)
-    if x["start_offsets"] == want_start:
-        r.ok("C04.R1", OFF, f"start_offsets = {x['start_offsets']}", loc)
-    else:
-        r.violation("C04.R1", OFF, f"start_offsets = {x['start_offsets']}",
-                    f"a prefix of i bytes determines ceil(8i/6) leading Base64 characters; expected {want_start}: a smaller offset keeps characters that depend on the preceding bytes, a larger one drops payload information", loc)
-    if x["end_offsets"] == want_end:
-        r.ok("C04.R1", OFF, f"end_offsets = {x['end_offsets']}", loc)
-    else:
-        r.violation("C04.R1", OFF, f"end_offsets = {x['end_offsets']}",
-                    f"a residue r=(length+shift) mod 3 leaves 0/3/2 trailing characters that are padding or depend on the following bytes; expected {want_end}", loc)
-    # shape of the slice expressions
-    v = x["var"]
-    lo, up = unparse(x["lower"]) if x["lower"] is not None else None, unparse(x["upper"]) if x["upper"] is not None else None
-    if lo == f"self.start_offsets[{v}]":
-        r.ok("C04.R1", f.qual, f"lower bound {lo}", loc)
-    else:
-        r.violation("C04.R1", f.qual, f"lower bound {lo}", f"the start offset must be indexed by the shift {v}", loc)
-    pad_ok = False
-    arg = x["encoded_arg"]
-    if isinstance(arg, ast.BinOp) and isinstance(arg.op, ast.Add) and unparse(arg.left).replace("'", '"') in (f'{v} * b" "', f'b" " * {v}'):
-        pad_ok = True
-        x["payload_expr"] = arg.right
-    if pad_ok:
-        r.ok("C04.R1", f.qual, f"encoded bytes = {unparse(arg)}", loc)
-    else:
-        r.violation("C04.R1", f.qual, f"encoded bytes = {short(arg, 80)}", f"the text must be the Base64 of {v} filler bytes followed by the payload", loc)
-    # the residue expression
-    up_ok = False
-    if isinstance(x["upper"], ast.Subscript) and unparse(x["upper"].value) == "self.end_offsets":
-        idx = x["upper"].slice
-        if isinstance(idx, ast.BinOp) and isinstance(idx.op, ast.Mod) and isinstance(idx.right, ast.Constant) and idx.right.value == 3:
-            inner = idx.left
-            if isinstance(inner, ast.BinOp) and isinstance(inner.op, ast.Add):
-                parts = {unparse(inner.left), unparse(inner.right)}
-                lens = [p for p in parts if p.startswith("len(")]
-                if v in parts and len(lens) == 1:
-                    up_ok = True
-                    x["len_expr"] = inner.left if unparse(inner.left).startswith("len(") else inner.right
-    lens = [c for c in walk_no_nested(f.node) if isinstance(c, ast.Call) and call_name(c) == "len"]
-    if "len_expr" not in x and len(lens) == 1:
-        x["len_expr"] = lens[0]
-    if x.get("filters"):
-        r.violation("C04.R1", f.qual, f"variants filtered by {x['filters']}", "every alignment variant is needed: a legitimately empty or short variant (1-byte payload at offset ≡ 1 mod 3) dropped here means encoded data at that alignment is never matched", loc)
-    else:
-        r.ok("C04.R1", f.qual, "no variant is filtered out", loc)
-    ctx._c04 = x  # type: ignore[attr-defined]
-    # evaluate the extracted arithmetic (quick: bounds for all shift/length classes; thorough: also against Base64 text in context)
-    if pad_ok:
-        bad = _arith_check(x, deep=(ctx.tier == "thorough"))
-        n = bad.pop("_n")
-        if not bad:
-            r.ok("C04.R1", f.qual, f"extracted slice arithmetic (with local definitions) evaluated for all shifts × payload lengths 1..6" + (f" and on {n} (payload, prefix, suffix, filler) contexts against Base64 text: every variant occurs in the encoding of its alignment class" if ctx.tier == "thorough" else ""))
-        else:
-            k, wit = next(iter(bad.items()))
-            r.violation("C04.R1", f.qual, f"slice arithmetic, class {k}", f"evaluating the extracted index expressions against Base64: {wit}", loc)
-    r.floor("C04.R1", 6)
-
-
-def _arith_check(x: dict[str, Any], deep: bool = True) -> dict[str, Any]:
-    """Evaluate value_i(payload) = b64(i*b' '+payload)[lower:upper] with the *extracted* expressions and tables."""
-    bad: dict[str, Any] = {}
-    n = 0
-    v = x["var"]
-
-    class _Self:
-        start_offsets = x["start_offsets"]
-        end_offsets = x["end_offsets"]
-
-    f = x["func"]
-    top = [s2 for st0 in f.node.body for s2 in (st0.body if isinstance(st0, ast.Try) else [st0])]  # a try around the assignment does not change its value
-    local_assigns = [st for st in top if isinstance(st, ast.Assign) and len(st.targets) == 1 and isinstance(st.targets[0], ast.Name)
-                     and not any(isinstance(n, (ast.ListComp, ast.GeneratorExp, ast.SetComp, ast.DictComp, ast.Lambda)) for n in ast.walk(st.value))]
+    deep = ctx.tier == "thorough"
     alphabet = [b"a", b"\xc3", b"\x00"]
+    bad: list[str] = []
+    n = ncontexts = 0
     for L in range(1, 7):
         for payload in (b"".join(p) for p in itertools.product(alphabet, repeat=min(L, 3))):
             payload = (payload * 3)[:L]
-            values = []
-            for i in x["shifts"]:
-                # the length operand is evaluated as the byte length (units are C04.R2's business)
-                env = {"self": _Self, v: i, "val": payload}
-                try:
-                    for st in local_assigns:
-                        env[st.targets[0].id] = eval(compile(ast.Expression(body=st.value), "<local>", "eval"),
-                                                     {"__builtins__": {"len": len, "bytes": bytes, "min": min, "max": max, "abs": abs, "divmod": divmod}}, env)  # noqa: S307
-                    lo = _eval_index(x["lower"], env)
-                    up = _eval_index(x["upper"], env)
-                except Exception as e:  # the extracted expression is outside the evaluable subset
-                    raise AnalysisError(f"slice arithmetic not evaluable: {e}")
-                want_lo, want_up = (8 * i + 5) // 6, (None, -3, -2)[(len(payload) + i) % 3]
-                if (lo or 0, up) != (want_lo, want_up):
-                    bad[f"L={len(payload)},shift={i}"] = (f"slice bounds evaluate to [{lo}:{up}] for a payload of {len(payload)} bytes shifted by {i}; Base64 arithmetic requires "
-                                                          f"[{want_lo}:{want_up}] (leading characters tainted by the filler / trailing characters that are padding or depend on following bytes)")
-                    bad["_n"] = n
-                    return bad
-                values.append(base64.b64encode(i * b" " + payload)[lo:up])
+            n += 1
+            got = _offset_variants(ctx, payload)
+            want = _reference_variants(payload)
+            if not isinstance(got, list) or sorted(got) != sorted(want):
+                why = ""
+                if isinstance(got, list):
+                    if len(got) < 3:
+                        why = " — every alignment variant is needed: the payload can sit at byte offsets ≡ 0, 1, 2 (mod 3) of the encoded data; a legitimately empty or short variant (1-byte payload at offset ≡ 1 mod 3) dropped here means encoded data at that alignment is never matched"
+                    else:
+                        why = " — leading characters tainted by the filler / trailing characters that are padding or depend on following bytes"
+                bad.append(f"payload {payload!r}: variants {got}, Base64 arithmetic requires {want}{why}")
+                continue
             for plen in (range(0, 6) if deep else ()):
                 for slen in range(0, 4):
                     for fill in (b"\x00", b"\xff"):
-                        n += 1
-                        data = base64.b64encode(fill * plen + payload + fill * slen)
-                        if not any(val in data for val in values):
-                            bad[f"L={L},prefix={plen}"] = f"payload {payload!r} at offset {plen} (suffix {slen}, fill {fill!r}): none of {values} occurs in {data!r}"
-                            bad["_n"] = n
-                            return bad
-                        val = values[plen % 3] if len(values) == 3 else None
-                        if val is not None and val not in data:
-                            bad[f"L={L},shift={plen % 3}"] = f"variant for alignment {plen % 3} {val!r} of payload {payload!r} does not occur in {data!r}: it contains characters that depend on the surrounding bytes or padding"
-                            bad["_n"] = n
-                            return bad
-    bad["_n"] = n
-    return bad
+                        ncontexts += 1
+                        data = base64.b64encode(fill * plen + payload + fill * slen).decode()
+                        if want[plen % 3] not in data:  # the reference itself, as a check of the specification used here
+                            raise AnalysisError(f"reference variant {want[plen % 3]!r} does not occur in {data!r}")
+    if not bad:
+        r.ok("C04.R1", f.qual, f"modify() interpreted on {n} payloads (lengths 1..6): three variants, slices [ceil(8i/6) : end by (byte length + i) mod 3]" + (f"; the specification used was itself checked on {ncontexts} (payload, prefix, suffix, filler) contexts against Base64 text" if deep else ""), loc)
+    else:
+        r.violation("C04.R1", f.qual, f"base64offset variants: {bad[0]}", f"{len(bad)} of {n} interpreted payloads deviate", loc)
+    for nm, want_t in (("start_offsets", tuple((8 * i + 5) // 6 for i in range(3))), ("end_offsets", (None, -3, -2))):
+        a = prog.lookup_class_attr(OFF, nm)
+        if a is not None:
+            try:
+                v = tuple(const_eval(prog, f.module, a[1].value))  # type: ignore[attr-defined]
+            except Exception:
+                continue
+            if v == want_t:
+                r.ok("C04.R1", OFF, f"{nm} = {v}", loc)
+            elif bad:
+                r.violation("C04.R1", OFF, f"{nm} = {v}", f"expected {want_t}: a prefix of i bytes determines ceil(8i/6) leading Base64 characters; a residue r=(length+shift) mod 3 leaves 0/3/2 trailing characters that are padding or depend on the following bytes", loc)
+    r.floor("C04.R1", 1)
 
 
 def r2_units(ctx) -> None:
     r, prog = ctx.r, ctx.prog
-    r.rule("C04.R2", "the length that selects the end offset is the number of *bytes* of exactly the byte string that is encoded")
-    x = getattr(ctx, "_c04", None) or _extract(ctx)
-    f: FuncInfo = x["func"]
-    le = x.get("len_expr")
-    pe = x.get("payload_expr")
-    if le is None or pe is None:
-        r.violation("C04.R2", f.qual, "len(<payload bytes>)", "length operand / payload expression not recognised", f.loc)
-        return
-    arg = le.args[0]
-    t = ctx.types.type_str(f.module, arg)
-    loc = f"{f.module.relpath}:{le.lineno}"
-    same = unparse(arg) == unparse(pe)
-    is_bytes = t is not None and t.split("[")[0] in ("builtins.bytes", "bytes")
-    if is_bytes and same:
-        # and that name is bytes(val)
-        ok_src = True
-        if isinstance(arg, ast.Name):
-            defs = assignments_to(f.node, arg.id)
-            ok_src = len(defs) == 1 and unparse(defs[0]) == "bytes(val)"
-        elif unparse(arg) != "bytes(val)":
-            ok_src = False
-        if ok_src:
-            r.ok("C04.R2", f.qual, f"len({unparse(arg)}) — typed {t}, the same expression that is encoded, = bytes(val)", loc)
-        else:
-            r.violation("C04.R2", f.qual, f"len({unparse(arg)})", "the encoded byte string is not bytes(val)", loc)
+    r.rule("C04.R2", "the length that selects the end offset is the number of *bytes* of exactly the byte string that is encoded: modify() interpreted on stand-in values whose character count differs from their byte count")
+    f: FuncInfo = prog.func(OFF + ".modify")
+    bad = []
+    cases = [("\u00e9".encode(), 1), ("a\u00e9".encode(), 2), ("\u00e9\u00e9".encode(), 2), ("\u20ac".encode(), 1), ("ab\u20ac".encode(), 3), ("\U0001f600".encode(), 1)]
+    for payload, chars in cases:
+        got = _offset_variants(ctx, payload, chars)
+        want = _reference_variants(payload)
+        if not isinstance(got, list) or sorted(got) != sorted(want):
+            bad.append(f"value {payload.decode()!r} ({chars} character(s), {len(payload)} bytes): variants {got}, required {want}")
+    if not bad:
+        r.ok("C04.R2", f.qual, f"interpreted on {len(cases)} values with multi-byte characters: the end offset follows the byte length of the encoded bytes", f.loc)
     else:
-        r.violation("C04.R2", f.qual, f"len({unparse(arg)}) vs encoded {unparse(pe)}",
-                    f"the residue is computed from {unparse(arg)} (type {t}) but the encoded bytes are {unparse(pe)}: for a payload with multi-byte characters the character count differs from the byte count and the wrong end offset is chosen", loc)
+        r.violation("C04.R2", f.qual, f"base64offset units: {bad[0]}",
+                    f"{len(bad)} of {len(cases)} cases deviate: for a payload with multi-byte characters the character count differs from the byte count and the wrong end offset is chosen", f.loc)
     r.floor("C04.R2", 1)
 
 
@@ -241,31 +218,33 @@ def r3_byte_source(ctx) -> None:
     r, prog = ctx.r, ctx.prog
     r.rule("C04.R3", "bytes(SigmaString) are the characters of the value: __bytes__ does not go through the escaping plain form")
     f = prog.func("sigma.types.SigmaString.__bytes__")
-    rets = [x for x in walk_no_nested(f.node) if isinstance(x, ast.Return)]
-    if len(rets) != 1:
-        raise AnalysisError(f"{f.qual}: expected one return")
-    v = unparse(rets[0].value)
-    loc = f"{f.module.relpath}:{rets[0].lineno}"
-    escaping = ("str(self)" in v) or ("self.to_plain()" in v) or ("to_plain(regex=False)" in v) or ("self.original" in v) or ("repr(" in v)
-    raw = ("to_plain(regex=True)" in v) or ("to_plain_regex()" in v) or ("for" in v and "self.s" in v)
-    if raw and not escaping and ".encode(" in v:
-        r.ok("C04.R3", f.qual, v, loc)
-    elif "self.original" in v:
-        r.violation("C04.R3", f.qual, v, "self.original is the unparsed source text and is empty/stale for values built by earlier modifiers (wide, utf16*, contains …): a chain such as wide|base64 would encode the wrong bytes", loc)
-    else:
-        r.violation("C04.R3", f.qual, v, "the plain form escapes literal '*' and '?' with a backslash, which would be encoded as part of the payload", loc)
-    # to_plain(regex=True) leaves str parts untouched
     tp = prog.func("sigma.types.SigmaString.to_plain")
-    okp = False
-    for n in walk_no_nested(tp.node):
-        if isinstance(n, ast.If) and unparse(n.test) == "regex" and len(n.body) == 1 and unparse(n.body[0]) in ("rs += s", "rs = rs + s"):
-            gs = atomic_guards(guards_at(prog, tp, n.test))
-            if ("isinstance(s, str)", True) in gs:
-                okp = True
-    if okp:
-        r.ok("C04.R3", tp.qual, "regex=True branch appends string parts unchanged", tp.loc)
+    # both interpreted (sa.tabulate) on a stand-in string with literal wildcard characters, a backslash, both wildcard
+    # parts and a non-ASCII character; `original` holds stale text as it does for values built by earlier modifiers
+    from ..tabulate import Raised
+    from .standins import string_standin
+    Str, _Cased, _PH, sc, _env = string_standin(ctx)
+    parts = ["a*b?", sc.WILDCARD_MULTI, "c\\d", sc.WILDCARD_SINGLE, "\u00e9"]
+    chars = "a*b?*c\\d?\u00e9"
+    try:
+        got = Str(parts).call("__bytes__")
+    except Raised as ex:
+        got = f"<raises {ex}>"
+    if got == chars.encode("utf-8"):
+        r.ok("C04.R3", f.qual, f"bytes({parts}) = {got!r}: the characters of the value in UTF-8, no escaping backslashes, `original` not consulted", f.loc)
+    elif isinstance(got, bytes) and b"stale" in got:
+        r.violation("C04.R3", f.qual, f"bytes({parts}) = {got!r}", "self.original is the unparsed source text and is empty/stale for values built by earlier modifiers (wide, utf16*, contains …): a chain such as wide|base64 would encode the wrong bytes", f.loc)
     else:
-        r.violation("C04.R3", tp.qual, "if regex: rs += s", "the unescaped rendering no longer passes string parts through unchanged", tp.loc)
+        r.violation("C04.R3", f.qual, f"bytes({parts}) = {got!r}", f"specified {chars.encode('utf-8')!r}: the plain form escapes literal '*' and '?' with a backslash, which would be encoded as part of the payload", f.loc)
+    try:
+        got = Str(parts).call("to_plain", True)
+        got2 = Str(parts).call("to_plain", regex=True)
+    except Raised as ex:
+        got = got2 = f"<raises {ex}>"
+    if got == chars and got2 == chars:
+        r.ok("C04.R3", tp.qual, "to_plain(regex=True) gives the characters of the value: string parts unchanged", tp.loc)
+    else:
+        r.violation("C04.R3", tp.qual, f"to_plain(regex=True) of {parts} = {got!r}", f"specified {chars!r}: the unescaped rendering no longer passes string parts through unchanged", tp.loc)
     # what the Base64 modifiers encode is bytes(val) (plus padding), never a rendering of the value as text
     for cn in ("SigmaBase64Modifier", "SigmaBase64OffsetModifier"):
         bf = prog.func(f"{M}.{cn}.modify")
@@ -309,121 +288,75 @@ def r4_utf16(ctx) -> None:
         else:
             r.violation("C04.R4", M + ".modifier_mapping", f"{ident!r} → {reg.get(ident)}", f"identifier {ident!r} must map to {cn}")
     for cn, (codec, bom) in spec.items():
-        f = prog.func(f"{M}.{cn}.modify")
+        f = prog.lookup_method(f"{M}.{cn}", "modify")
+        if f is None:
+            raise AnalysisError(f"anchor vanished: {M}.{cn}.modify")
         loc = f.loc
-        encs = [c for c in walk_no_nested(f.node) if isinstance(c, ast.Call) and isinstance(c.func, ast.Attribute) and c.func.attr == "encode"]
-        codecs = []
-        for c in encs:
-            try:
-                codecs.append(str(const_eval(prog, f.module, c.args[0])).lower().replace("_", "-"))
-            except (ValueError, IndexError):
-                codecs.append("?")
-        lenient = [c for c in encs if len(c.args) > 1 or c.keywords]
-        if lenient:
-            r.violation("C04.R4", f.qual, short(lenient[0], 80), "the encode step is given an error handler: code points without an encoding (lone surrogates) are let through instead of refused — with the UTF-8 re-decoding trick D8..DF 80..BF is even valid, so `'\\udc80'` comes out as another character", loc)
-        if codecs == [codec]:
-            r.ok("C04.R4", f.qual, f"encodes with {codec}", loc)
+        enc = lambda t: t.encode(codec).decode("utf-8")  # noqa: E731
+        pre = ["\ufeff"] if bom else []
+        # text whose UTF-16 bytes are valid UTF-8 is re-encoded part by part; special parts stay where they are
+        kind, got = modifier_outcome(ctx, cn, ["ab", WM, "c"])
+        want = pre + [enc("ab"), WM, enc("c")]
+        if (kind, got) == ("parts", want):
+            r.ok("C04.R4", f.qual, f"encodes string parts with {codec} (re-decoded as UTF-8 text), other parts pass through" + ("; BOM is the first part" if bom else ""), loc)
+        elif kind == "parts" and bom and got and got[0] != "\ufeff" and [x for x in got if x != "\ufeff"] == want[1:]:
+            r.violation("C04.R4", f.qual, f"modify(['ab', *, 'c']) = {got!r}", "utf16 must prepend the byte order mark before any payload part", loc)
+        elif kind == "parts" and not bom and "\ufeff" in got:
+            r.violation("C04.R4", f.qual, "'\\ufeff'", f"{cn} must not add a byte order mark", loc)
         else:
-            r.violation("C04.R4", f.qual, f"encode codecs {codecs}", f"{cn} must encode string parts with {codec}", loc)
-        for c in encs:
-            p = prog.parent(prog.parent(c))
-            dec_ok = isinstance(p, ast.Call) and isinstance(p.func, ast.Attribute) and p.func.attr == "decode" and p.args and const_eval(prog, f.module, p.args[0]).lower().replace("_", "-") in ("utf-8", "utf8")
-            from ..raises import caught_locally
-            h = caught_locally(prog, f, c, "UnicodeDecodeError")
-            he = caught_locally(prog, f, c, "UnicodeEncodeError")
-            if he is None:
-                r.violation("C04.R4", f.qual, short(prog.enclosing_stmt(c), 100) + " [UnicodeEncodeError]", "the encode step itself fails for surrogate code points (YAML \"\\uD83D\"): UnicodeEncodeError is not handled, so a non-Sigma exception leaves rule loading instead of SigmaValueError", loc)
+            r.violation("C04.R4", f.qual, f"modify(['ab', *, 'c']) → {kind} {got!r}", f"specified {want!r}: {cn} must encode string parts with {codec}; the encode/decode round trip *is* the encoding (wildcards pass through)", loc)
+        # a character whose UTF-16 bytes happen to be valid UTF-8 comes out as those bytes (U+0141: 41 01), and a second
+        # value gets the same treatment as the first (no state kept between calls)
+        state: dict = {}
+        k1, g1 = modifier_outcome(ctx, cn, ["\u0141b"], class_state=state)
+        k2, g2 = modifier_outcome(ctx, cn, ["\u0141b"], class_state=state)
+        want2 = pre + [enc("\u0141b")]
+        if (k1, g1) == ("parts", want2) and (k2, g2) == ("parts", want2):
+            r.ok("C04.R4", f.qual, "the re-decoded text itself is the new part (U+0141 → 41 01); a second call gives the same", loc)
+        elif (k1, g1) == ("parts", want2):
+            r.violation("C04.R4", f.qual, f"second modify(['\\u0141b']) = {g2!r}", f"specified {want2!r} as for the first call: parts accumulate in an object shared between calls" + ("; utf16 must prepend the byte order mark exactly once, before any payload part" if bom else ""), loc)
+        else:
+            r.violation("C04.R4", f.qual, f"modify(['\\u0141b']) → {k1} {g1!r}", f"specified {want2!r}: the encode/decode round trip is only used as a test and the part is built some other way: the round trip *is* the encoding (it also rejects what it cannot represent), a hand-built interleaving accepts characters whose UTF-16 bytes happen to be valid UTF-8 and emits bytes that are not UTF-16", loc)
+        # what the trick cannot represent is refused with a Sigma error: undecodable byte sequences and code points without encoding
+        for what, text in (("a character whose UTF-16 bytes are not valid UTF-8", "\u00e9"), ("a character whose UTF-16 bytes are not valid UTF-8 (second part)", "\u0394x")):
+            kind, got = modifier_outcome(ctx, cn, ["ok", text])
+            if kind == "refused":
+                r.ok("C04.R4", f.qual, f"{what} ({text!r}) is refused with SigmaValueError", loc)
             else:
-                r.ok("C04.R4", f.qual, "UnicodeEncodeError of the encode step is handled as well", loc)
-            if dec_ok and h is not None and any(isinstance(x, ast.Raise) and "SigmaValueError" in unparse(x) for x in ast.walk(h)):
-                r.ok("C04.R4", f.qual, "re-decoded as utf-8 inside try/except UnicodeDecodeError → SigmaValueError", loc)
-            else:
-                r.violation("C04.R4", f.qual, short(prog.enclosing_stmt(c), 100), "the re-decoding step must be guarded so that undecodable byte sequences are rejected with SigmaValueError (not UnicodeDecodeError, not silently altered)", loc)
-            if dec_ok:
-                use = prog.parent(p)
-                if isinstance(use, ast.Call) and call_name(use) == "r.append" and use.args and use.args[0] is p:
-                    r.ok("C04.R4", f.qual, "the re-decoded text itself is the new part", loc)
-                else:
-                    r.violation("C04.R4", f.qual, short(prog.enclosing_stmt(c), 100), "the encode/decode round trip is only used as a test and the part is built some other way: the round trip *is* the encoding (it also rejects what it cannot represent), a hand-built interleaving accepts characters whose UTF-16 bytes happen to be valid UTF-8 and emits bytes that are not UTF-16", loc)
-            gs = atomic_guards(guards_at(prog, f, c))
-            if ("isinstance(item, str)", True) in gs:
-                r.ok("C04.R4", f.qual, "only str parts are encoded; other parts are appended unchanged", loc)
-            else:
-                r.violation("C04.R4", f.qual, short(c, 60), "encoding must be restricted to str parts (wildcards/placeholders pass through)", loc)
-        boms = [c for c in walk_no_nested(f.node) if isinstance(c, ast.Constant) and c.value == "﻿"]
-        if bom:
-            first = None
-            for st in f.node.body:
-                if isinstance(st, ast.Expr) and isinstance(st.value, ast.Call) and call_name(st.value) == "r.append":
-                    first = st
-                    break
-                if isinstance(st, ast.For):
-                    break
-            if boms and first is not None and any(b is x for b in boms for x in ast.walk(first)):
-                r.ok("C04.R4", f.qual, "BOM is the first part", loc)
-            else:
-                r.violation("C04.R4", f.qual, "r.append('\\ufeff')", "utf16 must prepend the byte order mark before any payload part", loc)
+                r.violation("C04.R4", f.qual, f"modify(['ok', {text!r}]) → {kind} {got!r}", "the re-decoding step must be guarded so that undecodable byte sequences are rejected with SigmaValueError (not UnicodeDecodeError, not silently altered); a hand-built interleaving accepts characters whose UTF-16 bytes happen to be valid UTF-8 and emits bytes that are not UTF-16", loc)
+        kind, got = modifier_outcome(ctx, cn, ["a\udc80"])
+        if kind == "refused":
+            r.ok("C04.R4", f.qual, "a lone surrogate (no UTF-16 encoding) is refused with SigmaValueError", loc)
+        else:
+            r.violation("C04.R4", f.qual, f"modify(['a\\udc80']) → {kind} {got!r} [UnicodeEncodeError]", "the encode step itself fails for surrogate code points (YAML \"\\uD83D\"): it must end in SigmaValueError, not in a non-Sigma exception, and must not be let through by an error handler of encode() — with the UTF-8 re-decoding trick D8..DF 80..BF is even valid, so `'\\udc80'` comes out as another character", loc)
+        kind, got = modifier_outcome(ctx, cn, ["ab"])
+        if bom and kind == "parts" and got and got[0] == "\ufeff":
             # the BOM is stored as the *character* U+FEFF: bytes() of the value give its UTF-8 form EF BB BF, not FF FE
             r.violation("C04.R4", f.qual, "BOM stored as character U+FEFF",
                         "the value's bytes are produced by UTF-8 encoding the parts; U+FEFF encodes to EF BB BF, so utf16|base64 does not start with the UTF-16LE BOM bytes FF FE "
                         "(the re-decoding trick cannot represent FF FE, which is not valid UTF-8)", loc)
-        elif boms:
-            r.violation("C04.R4", f.qual, "'\\ufeff'", f"{cn} must not add a byte order mark", loc)
     r.floor("C04.R4", 12)
 
 
 def r6_wildcard_width(ctx) -> None:
     """After wide/utf16/utf16be every character of the text takes two bytes; '?' stands for one character."""
-    from ..tabulate import Interp, Raised
     r, prog = ctx.r, ctx.prog
     r.rule("C04.R6", "wildcards in encoded values: the modify() loops of wide/utf16be/utf16, interpreted on a value with both wildcards (sa.tabulate), keep '*' as it is and widen '?' to two one-byte wildcards (or refuse it) — one '?' between two-byte code units matches no encoded string")
 
-    class _SC:
-        def __init__(self, n):
-            self.n = n
-
-        def __repr__(self):
-            return self.n
-
-    S, Mu = _SC("?"), _SC("*")
-    sc = type("SpecialChars", (), {"WILDCARD_SINGLE": S, "WILDCARD_MULTI": Mu})
-
-    class _Str:
-        def __init__(self, *a, **k):
-            self.s = []
-
-    class _PH:
-        pass
-
+    S, Mu = WS, WM
     spec = {"SigmaWideModifier": ("utf-16le", False), "SigmaUTF16BEModifier": ("utf-16be", False), "SigmaUTF16Modifier": ("utf-16le", True)}
     for cn, (codec, bom) in spec.items():
-        f = prog.func(f"{M}.{cn}.modify")
-        val = _Str()
-        val.s = ["ab", S, "c", Mu]
-        me = type("Mod", (), {"source": None})()
-        for nm, sts in prog.cls(f"{M}.{cn}").assigns.items():  # class-level constants the loop may read
-            for st_ in sts:
-                if getattr(st_, "value", None) is not None:
-                    try:
-                        setattr(me, nm, const_eval(prog, f.module, st_.value))
-                    except Exception:
-                        pass
-        it = Interp({"self": me, "val": val, "SigmaString": _Str, "Placeholder": _PH, "SpecialChars": sc, "UnicodeError": UnicodeError,
-                     "UnicodeDecodeError": UnicodeDecodeError, "UnicodeEncodeError": UnicodeEncodeError,
-                     "SigmaValueError": type("SigmaValueError", (Exception,), {})})
-        try:
-            out = it.call(f.node.body)
-        except AnalysisError as ex:  # a body the interpreter cannot follow is not a verdict; the floor below reports the gap
-            r.note(f"C04.R6: {f.qual} not tabulated: {ex}")
+        f = prog.lookup_method(f"{M}.{cn}", "modify")
+        if f is None:
+            raise AnalysisError(f"anchor vanished: {M}.{cn}.modify")
+        kind, got = modifier_outcome(ctx, cn, ["ab", S, "c", Mu])
+        if kind == "refused":
+            r.ok("C04.R6", f.qual, "a value with '?' is refused with SigmaValueError", f.loc)
             continue
-        except Raised as ex:
-            if "SigmaValueError" in str(ex):
-                r.ok("C04.R6", f.qual, "a value with '?' is refused with SigmaValueError", f.loc)
-            else:
-                r.violation("C04.R6", f.qual, "modify(['ab', ?, 'c', *])", f"raises {ex}", f.loc)
+        if kind == "error":
+            r.violation("C04.R6", f.qual, "modify(['ab', ?, 'c', *])", f"raises {got}", f.loc)
             continue
-        got = list(getattr(out, "s", []))
-        enc = lambda t: t.encode(codec).decode("utf-8")
+        enc = lambda t: t.encode(codec).decode("utf-8")  # noqa: E731
         want = (["\ufeff"] if bom else []) + [enc("ab"), S, S, enc("c"), Mu]
         if got == want:
             r.ok("C04.R6", f.qual, "['ab', ?, 'c', *] → encoded parts, '?' widened to two single wildcards, '*' kept", f.loc)
@@ -437,16 +370,19 @@ def r5_wildcards_rejected(ctx) -> None:
     r, prog = ctx.r, ctx.prog
     r.rule("C04.R5", "both Base64 modifiers reject values with wildcards before encoding (contains_special() → SigmaValueError dominates b64encode)")
     for cn in ("SigmaBase64Modifier", "SigmaBase64OffsetModifier"):
-        f = prog.func(f"{M}.{cn}.modify")
-        encs = [c for c in walk_no_nested(f.node) if isinstance(c, ast.Call) and call_name(c).split(".")[-1] == "b64encode"]
-        if not encs:
-            raise AnalysisError(f"{f.qual}: b64encode call not found")
-        for c in encs:
-            gs = atomic_guards(guards_at(prog, f, c))
-            loc = f"{f.module.relpath}:{c.lineno}"
-            raised = any(isinstance(n, ast.If) and unparse(n.test) == "val.contains_special()" and isinstance(n.body[0], ast.Raise) and "SigmaValueError" in unparse(n.body[0]) for n in walk_no_nested(f.node))
-            if ("val.contains_special()", False) in gs and raised:
-                r.ok("C04.R5", f.qual, "b64encode only when not val.contains_special(); otherwise SigmaValueError", loc)
-            else:
-                r.violation("C04.R5", f.qual, short(c, 80), "a value with wildcards would be encoded (the '*' would become part of the Base64 payload) instead of being rejected", loc)
+        f = prog.lookup_method(f"{M}.{cn}", "modify")
+        if f is None:
+            raise AnalysisError(f"anchor vanished: {M}.{cn}.modify")
+        bad = []
+        for parts in (["ab", WM], [WS, "ab"], ["a", WM, "b"], [WM]):
+            kind, got = modifier_outcome(ctx, cn, parts)
+            if kind != "refused":
+                bad.append(f"modify({parts!r}) → {kind} {got!r}")
+        kind, got = modifier_outcome(ctx, cn, ["ab"])
+        if kind != "texts":
+            bad.append(f"modify(['ab']) → {kind} {got!r} (a value without wildcards must be encoded)")
+        if not bad:
+            r.ok("C04.R5", f.qual, "interpreted: values with '*' or '?' are refused with SigmaValueError, plain values are encoded", f.loc)
+        else:
+            r.violation("C04.R5", f.qual, bad[0], "a value with wildcards would be encoded (the '*' would become part of the Base64 payload) instead of being rejected", f.loc)
     r.floor("C04.R5", 2)
